@@ -28,7 +28,7 @@ INVS = ['NoFault', 'NoForeignSignal', 'RunLive', 'CascadeShape', 'MutualExclusio
 def run(check):
     runs = []
     for label, consts, limit in CONFIGS[check.tier]:
-        ws = check.witnesses(label, consts, emit='EmitOps', invariants=INVS, coverage=check.tier == 'thorough')
+        ws = check.witnesses(label, consts, emit='EmitOps', invariants=INVS, coverage=check.tier == 'thorough', limit=limit)
         runs += [(p, t, consts['NRoots']) for p, t in usimrun.replay(check, ws, consts, limit=limit)]
     traces = [r[1] for r in runs]
     for idx, clause, pos in check.validate('ObsC09', traces):
